@@ -100,11 +100,23 @@ class Box[T](State):
 BoxInt = Box[int]
 BoxStr = Box[str]
 
-TYPES = {"D1": D1, "D2": D2, "R1": R1, "R2": R2, "R3": R3, "R4": R4, "SubD1": SubD1, "BoxInt": BoxInt, "BoxStr": BoxStr}
+
+class Tagged[T](State):
+    """a generic state whose parameter is only a tag: two specialisations over literals that are equal as values but not as types
+    (`Literal[0]` and `Literal[False]`; typing keeps them apart) are two different state types"""
+
+    v: int
+    tag: T | None = None
+
+
+TagZero = Tagged[Literal[0]]
+TagFalse = Tagged[Literal[False]]
+
+TYPES = {"D1": D1, "D2": D2, "R1": R1, "R2": R2, "R3": R3, "R4": R4, "SubD1": SubD1, "BoxInt": BoxInt, "BoxStr": BoxStr, "TagZero": TagZero, "TagFalse": TagFalse}
 DEFAULTABLE = {"D1", "D2", "SubD1"}
 NAMES = list(TYPES)
 # class of an explicit default which is NOT an instance of the requested type (base class, unspecialised generic, unrelated type)
-FOREIGN_DEFAULT = {"D1": "D2", "D2": "R1", "R1": "D1", "R2": "R4", "R3": "D2", "R4": "R2", "SubD1": "D1", "BoxInt": "Box", "BoxStr": "Box"}
+FOREIGN_DEFAULT = {"D1": "D2", "D2": "R1", "R1": "D1", "R2": "R4", "R3": "D2", "R4": "R2", "SubD1": "D1", "BoxInt": "Box", "BoxStr": "Box", "TagZero": "TagFalse", "TagFalse": "TagZero"}
 
 
 def make(tname: str, uid: int):
